@@ -18,6 +18,17 @@ CLAIMED = {
                 "not proved); values restricted to str/int/bool.",
         "technique": "Coq proof (induction over op histories, non-interference) + model/code correspondence via vm_compute",
     },
+    "C17": {
+        "text": "Machine-checked theorems (axiom-free) about a Gallina model of the web handler's path logic on segment lists: "
+                "every POST request that passes the root check reads only a path that resolves under the root, for all roots, working "
+                "directories and spellings (c17_post_contained); GET without '..' stays under the static folder (c17_get_contained); "
+                "lexical resolution is a normal form, idempotent and cancels x/.. (c17_resolve_*).  The model is tied to sqllineage/drawing.py "
+                "by sending every enumerated request to the real WSGI app against a scratch tree with marker files outside the root.",
+        "design_ref": "DESIGN.md section 6 C17, Appendix B",
+        "note": "Trusted: Coq kernel + vm_compute; hand-written model Web/PathModel.v of pathlib parse/absolute/resolve/parent/is_relative_to "
+                "(modelled, tied differentially); harness. Assumes no symlinks under the roots; WSGI server/HTTP layer not modelled.",
+        "technique": "Coq proof (induction over segment lists) + exhaustive request enumeration against the real app",
+    },
 }
 
 checks = []
@@ -54,7 +65,7 @@ manifest = {
     }],
     "checks": checks,
     "not_applicable": na,
-    "notes": "fix commits in /repo: e020d83 (C15).  known_findings.json lists recorded defects.",
+    "notes": "fix commits in /repo: e020d83 (C15), c90fd36 (C17).  known_findings.json lists recorded defects.",
 }
 (VERIF / "MANIFEST.json").write_text(json.dumps(manifest, indent=1) + "\n")
 print("claimed", sorted(CLAIMED), "not claimed", len(na))
